@@ -745,26 +745,34 @@ class HDF5DataFrame(DataFrame):
         # validate groupby keys
         by = val.validate_selected_keys(by, self._columns.keys())
 
-        # check if keys is sorted
-        by_fields_data = np.asarray([self._columns[k].data[:] for k in by])
+        # every key column is read, compared and sorted in its own dtype (stacking them into one array would promote
+        # keys of different dtypes: int64 next to float64 is rounded, numbers next to strings are compared as text)
+        by_fields_data = [np.asarray(self._columns[k].data[:]) for k in by]
+        if any(len(d) != len(by_fields_data[0]) for d in by_fields_data):
+            raise ValueError("The fields to group by must all have the same length")
 
+        # check if keys is sorted: rows i, i+1 are in order if the first key column in which they differ increases
+        is_sorted = True
         if not hint_keys_is_sorted:
-            is_sorted = ops.check_if_sorted_for_multi_fields(by_fields_data)
-        else:
-            is_sorted = True
+            undecided = np.ones(max(len(by_fields_data[0]) - 1, 0), dtype=bool)
+            for d in by_fields_data:
+                if np.any(undecided & (d[:-1] > d[1:])):
+                    is_sorted = False
+                    break
+                undecided &= ~(d[:-1] < d[1:])
 
         sorted_index = None
         if not is_sorted:
             # sort first if needed
             readers = tuple(self._columns[k] for k in by)
             sorted_index = self._dataset.session.dataset_sort_index(readers, np.arange(len(readers[0].data), dtype=np.uint32))
+            by_fields_data = [d[sorted_index] for d in by_fields_data]
 
-            sorted_by_fields_data = np.asarray([np.asarray(self._columns[k].data[:])[sorted_index] for k in by])
-        else:
-            sorted_by_fields_data = np.asarray([self._columns[k].data[:] for k in by])
+        # the rows at which the key changes are the rows at which some key column changes
+        spans = ops.get_spans_for_field(by_fields_data[0])
+        for d in by_fields_data[1:]:
+            spans = np.asarray(ops._get_spans_for_2_fields_by_spans(spans, ops.get_spans_for_field(d)), dtype=spans.dtype)
 
-        spans = ops._get_spans_for_multi_fields(sorted_by_fields_data)
-        
         return HDF5DataFrameGroupBy(self._columns, by, sorted_index, spans)
 
     def describe(self, include=None, exclude=None, output='terminal'):
